@@ -135,6 +135,48 @@ def result_case(c, k, client, methods, sm, pkg, loop, is_async, RESULT, expected
     return rec
 
 
+class _SubWS:
+    """scripted graphql-transport-ws peer: ack, then (after the subscribe frame was captured) complete"""
+
+    def __init__(self, cap):
+        self.cap, self.queue, self.closed = cap, [json.dumps({"type": "connection_ack"})], False
+
+    async def send(self, msg):
+        d = json.loads(msg)
+        if d.get("type") == "subscribe":
+            self.cap["payload"] = d.get("payload") or {}
+            self.queue.append(json.dumps({"type": "complete", "id": d.get("id")}))
+
+    async def recv(self):
+        return self.queue.pop(0)
+
+    def __aiter__(self):
+        return self
+
+    async def __anext__(self):
+        if self.closed or not self.queue:
+            raise StopAsyncIteration
+        return self.queue.pop(0)
+
+    async def close(self, *a, **k):
+        self.closed = True
+
+
+class _SubConnect:
+    def __init__(self, cap):
+        self.cap = cap
+
+    def __call__(self, *a, **k):
+        self.ws = _SubWS(self.cap)
+        return self
+
+    async def __aenter__(self):
+        return self.ws
+
+    async def __aexit__(self, *a):
+        return False
+
+
 def main():
     P = load_payload()
     pkg = import_pkg(P["package"])
@@ -178,7 +220,29 @@ def main():
     else:
         loop = None
         hc = httpx.Client(transport=httpx.MockTransport(handler))
-    client = pkg.Client(url="http://x/graphql", http_client=hc)
+    client = pkg.Client(url="http://x/graphql", http_client=hc, ws_url="ws://x/graphql") if is_async else pkg.Client(url="http://x/graphql", http_client=hc)
+    import sys as _sys
+    basemod = _sys.modules[pkg.Client.__mro__[1].__module__]
+
+    def sub_deliver(payload):
+        """what the server's subscribe resolver receives for the frame's variables (spec variable coercion)"""
+        from graphql import subscribe as gql_subscribe
+
+        async def agen():
+            if False:
+                yield None
+
+        def sub_resolver(src, info, **kw):
+            seen["kw"] = kw
+            return agen()
+
+        async def go():
+            r = gql_subscribe(schema, parse(payload["query"]), variable_values=payload.get("variables") or {},
+                              operation_name=payload.get("operationName"), subscribe_field_resolver=sub_resolver)
+            if hasattr(r, "__await__"):
+                r = await r
+            return r
+        loop.run_until_complete(go())
     methods = {m.replace("_", "").lower(): m for m in dir(client) if not m.startswith("_")}
     results = []
     for c in P["cases"]:
@@ -190,7 +254,9 @@ def main():
             if pos.startswith("result"):
                 results.append(result_case(c, k, client, methods, sm, pkg, loop, is_async, RESULT, val))
                 continue
-            opname = {"var": "OpV_", "field": "OpF_", "nested": "OpN_"}[pos] + k
+            opname = {"var": "OpV_", "field": "OpF_", "nested": "OpN_", "sub_var": "OpSV_", "sub_field": "OpSF_"}[pos] + k
+            is_sub = pos.startswith("sub")
+            pos = {"sub_var": "var", "sub_field": "field"}.get(pos, pos)
             meth = getattr(client, methods[opname.replace("_", "").lower()])
             sig = inspect.signature(meth)
             rec["signature"] = {n: (p.default is not inspect.Parameter.empty) for n, p in sig.parameters.items() if n not in ("self", "kwargs")}
@@ -209,9 +275,21 @@ def main():
             seen.clear()
             last.clear()
             try:
-                r = meth(**kwargs)
-                if is_async:
-                    r = loop.run_until_complete(r)
+                if is_sub:
+                    cap = {}
+                    basemod.ws_connect = _SubConnect(cap)
+
+                    async def consume(it):
+                        async for _ in it:
+                            pass
+                    loop.run_until_complete(consume(meth(**kwargs)))
+                    if "payload" in cap:
+                        last["body"] = cap["payload"]
+                        sub_deliver(cap["payload"])
+                else:
+                    r = meth(**kwargs)
+                    if is_async:
+                        r = loop.run_until_complete(r)
                 rec["call"] = "ok"
             except Exception as ex:  # noqa
                 rec["call"] = f"{type(ex).__name__}: {ex}"[:300]
